@@ -4,6 +4,8 @@
   `paths = [...]` literal, the loader class handed to `_load_metadata`, and whether the body has exactly the caching
   shape `if self._x is not None: return self._x; paths = [..]; self._x = self._load_metadata(paths, cls); return self._x`
   (anything else: `cached = false`);
+* the exception classes `_load_metadata` wraps into `RuntimeError('<path> can not be deserialized ..')`: the class tuple
+  of its `except` clause (empty when the handler is not exactly a `raise RuntimeError(<format> % (path, ..))`);
 * the three probe names of `__init__`: the preferred sub-directory, the file that must exist in it, the name looked
   for in scanned sub-directories (empty when the statements are not recognised).
 """
@@ -62,15 +64,43 @@ def init_info(fn):
     return sub, probe, scan
 
 
+def wrapped_classes(fn):
+    """class names of `except (A, B, ..) as exc: raise RuntimeError('%s ..' % (path, exc))` around `obj.load(path)`"""
+    if fn is None:
+        return []
+    tries = [n for n in ast.walk(fn) if isinstance(n, ast.Try)]
+    if len(tries) != 1 or len(tries[0].handlers) != 1:
+        return []
+    t, h = tries[0], tries[0].handlers[0]
+    if not (len(t.body) == 1 and isinstance(t.body[0], ast.Expr) and ast.unparse(t.body[0].value) == "obj.load(path)" and not t.orelse and not t.finalbody):
+        return []
+    body = [b for b in h.body if not isinstance(b, ast.Pass)]
+    if not (len(body) == 1 and isinstance(body[0], ast.Raise) and isinstance(body[0].exc, ast.Call) and ast.unparse(body[0].exc.func) == "RuntimeError"
+            and len(body[0].exc.args) == 1 and isinstance(body[0].exc.args[0], ast.BinOp) and isinstance(body[0].exc.args[0].op, ast.Mod)
+            and isinstance(body[0].exc.args[0].left, ast.Constant) and str(body[0].exc.args[0].left.value).startswith("%s ")
+            and isinstance(body[0].exc.args[0].right, ast.Tuple) and ast.unparse(body[0].exc.args[0].right.elts[0]) == "path"):
+        return []
+    ty = h.type
+    elts = ty.elts if isinstance(ty, ast.Tuple) else [ty] if ty is not None else []
+    names = []
+    for e in elts:
+        if not isinstance(e, ast.Name):
+            return []
+        names.append(e.id)
+    return names
+
+
 def generate(mods, repo):
     path = os.path.join(repo, "productmd", "compose.py")
     tree = ast.parse(open(path).read(), path)
-    props, init = [], ("", "", "")
+    props, init, wrapped = [], ("", "", ""), []
     for node in tree.body:
         if isinstance(node, ast.ClassDef) and node.name == "Compose":
             for it in node.body:
                 if isinstance(it, ast.FunctionDef) and it.name == "__init__":
                     init = init_info(it)
+                if isinstance(it, ast.FunctionDef) and it.name == "_load_metadata":
+                    wrapped = wrapped_classes(it)
                 if isinstance(it, ast.FunctionDef) and any(isinstance(d, ast.Name) and d.id == "property" for d in it.decorator_list):
                     paths, cls, cached, attr = prop_info(it)
                     if paths is not None or cls is not None:
@@ -85,6 +115,8 @@ def generate(mods, repo):
            "/-- `os.path.join(compose_path, ..)`: the preferred sub-directory -/", "def composeSubdir : Str := %s" % T.lstr(init[0]),
            "/-- the file whose presence selects it -/", "def composeProbe : Str := %s" % T.lstr(init[1]),
            "/-- the name looked for in every scanned sub-directory -/", "def composeScanName : Str := %s" % T.lstr(init[2]), "",
+           "/-- exception classes `_load_metadata` turns into `RuntimeError('<path> can not be deserialized ..')` -/",
+           "def composeWrapped : List String := [%s]" % ", ".join('"%s"' % n for n in wrapped), "",
            "end PM.Gen"]
-    js = dict(accessors=props, subdir=init[0], probe=init[1], scan=init[2])
+    js = dict(accessors=props, subdir=init[0], probe=init[1], scan=init[2], wrapped=wrapped)
     return [("ComposePaths.lean", "\n".join(out) + "\n", js)]
